@@ -19,7 +19,8 @@ class CHECK(Check):
             "matters) x contents of 0-10 lines from a pool with nested-looking markers, unterminated blocks, markers on "
             "the last line without newline, blank lines, empty content; text storage and binary storage with one-byte "
             "markers. Plus every content of <=3 lines over an 8-line pool for 10 fixed block lists (complete). "
-            "non-trivial = at least one typed block of >= 2 lines and one default block; distinct = hash")
+            "non-trivial = at least one typed block of >= 2 lines and one default block; distinct = hash"
+            " Later additions: block class hierarchies, read() returning True/honest False/None, patterns containing the line terminator, the empty pattern.")
 
     def gen(self, tier, rng):
         import itertools, random
